@@ -2,6 +2,7 @@ package keysim
 
 import (
 	"bytes"
+	"crypto/sha256"
 	"crypto/rand"
 	"encoding/hex"
 	"errors"
@@ -175,6 +176,22 @@ func RunWalletXMSS(ep *Episode) *Result {
 	var orig *xmss.XMSS
 	var oc outcome
 	var ent *simEntropy
+	if ep.Sibling && ep.SeedHex != "" {
+		// same seed, other hash function, earlier in this process
+		sd, _ := ep.seed48()
+		other := xmss.SHAKE_128
+		if hf == xmss.SHAKE_128 {
+			other = xmss.SHAKE_256
+		}
+		guard(func() {
+			sib := xmss.NewXMSSFromSeed(sd, 4, other, common.SHA256_2X)
+			sib.GetPK()
+			if _, err := sib.Sign([]byte("sibling")); err != nil {
+				panic(err)
+			}
+		})
+		res.Probes.Add("wallet:sibling-key-of-the-same-seed-first", 1)
+	}
 	if ep.Create == "entropy" {
 		ent = withEntropy(ep.Entropy, 48, func() {
 			oc = guard(func() { orig = xmss.NewXMSSFromHeight(ep.Height, hf) })
@@ -219,6 +236,42 @@ func RunWalletXMSS(ep *Episode) *Result {
 	}
 	if before.o.height != ep.Height {
 		w.add("height-mismatch", cfg, fmt.Sprintf("GetHeight=%d, created with %d", before.o.height, ep.Height))
+	}
+	{
+		h := sha256.New()
+		h.Write(before.o.pk[:])
+		h.Write(before.o.addr[:])
+		h.Write(before.o.ext[:])
+		for _, sg := range before.sigs {
+			h.Write(sg)
+		}
+		res.ObsDigest = hex.EncodeToString(h.Sum(nil)[:12])
+	}
+	if ep.Companion {
+		// a second wallet, created the same way with other parameters, must leave the first alone
+		oh, ohf := uint8(4), xmss.HashFunction((int(ep.Hash)+1)%3)
+		if ep.Height == 4 {
+			oh = 6
+		}
+		guard(func() {
+			if ep.Create == "entropy" {
+				withEntropy(&EntropyPlan{StreamSeed: ep.DrainSeed ^ 0xc0, ErrAfter: -1}, 48, func() { xmss.NewXMSSFromHeight(oh, ohf).GetPK() })
+			} else {
+				var s2 [48]byte
+				core.NewRand(ep.DrainSeed ^ 0xc1).Bytes(s2[:])
+				xmss.NewXMSSFromSeed(s2, oh, ohf, common.SHA256_2X).GetPK()
+			}
+		})
+		res.Probes.Add("wallet:companion-wallet-created", 1)
+		again, oc2 := observe(orig, true)
+		if oc2.panicked {
+			w.add("observe-failed", cfg+",after-companion", oc2.pval)
+			return res
+		}
+		if d := before.o.diff(&again, true); d != "" {
+			w.add("identity-changed-by-another-wallet", cfg+","+d, "creating a second wallet changed what the first one reports: "+d)
+			return res
+		}
 	}
 	// durable record: copies only
 	durSeed := before.o.seed
@@ -545,6 +598,8 @@ func newWalletBatch(b *Batch, fr *core.Rand, thorough bool) {
 			ep.ExportLate = true
 		}
 		ep.Traffic = r.Chance(0.3)
+		ep.Sibling = create == "seed" && r.Chance(0.25)
+		ep.Companion = r.Chance(0.25)
 		if stub && leaves >= 1024 && r.Chance(0.3) { // signatures far into the key's life
 			ep.AtIndex = r.Uint32n(minU(leaves-4, 5000))
 		}
